@@ -57,6 +57,12 @@ func init() {
 		Run: func(c *Ctx) {
 			n := c.N(1500, 60000)
 			for i := 0; i < n; i++ {
+				// every third message is rendered right after ANOTHER message whose render failed half-way
+				// (destination error inside a body): nothing of that one may show up in this one
+				if i%3 == 1 {
+					failedRenderOfADecoy(c.Rng)
+					c.rep.Branches["after-a-failed-render-of-another-message"]++
+				}
 				spc := genSpec(c.Rng, genOpts{maxParts: 3, maxFiles: 3, noFails: true})
 				if outs, ok := renderCase(c, spc, 1, ""); ok {
 					oracleMessage(c, spc, outs[0], true, false)
@@ -87,4 +93,25 @@ func init() {
 				}
 			}
 		}})
+}
+
+// failedRenderOfADecoy renders an unrelated message into a destination that fails somewhere in the
+// middle (its own random stream, so the generated cases do not depend on it)
+func failedRenderOfADecoy(r *Rng) {
+	dr := &Rng{s: r.s ^ 0x9e3779b97f4a7c15}
+	decoy := genSpec(dr, genOpts{maxParts: 2, maxFiles: 2, noFails: true})
+	decoy.Parts = append(decoy.Parts, PartSpec{CType: "text/plain", Content: []byte(strings.Repeat("DECOY-CONTENT-THAT-MUST-NOT-LEAK ", 40))})
+	m, _, err := decoy.Build()
+	if err != nil {
+		return
+	}
+	full := renderOnce(m, -1)
+	if full.err != nil || len(full.out) < 10 {
+		return
+	}
+	m2, _, err := decoy.Build()
+	if err != nil {
+		return
+	}
+	_ = renderOnce(m2, len(full.out)/3+dr.Intn(len(full.out)/2))
 }
